@@ -2,6 +2,7 @@
 One refinement step from a pre-state whose store CONTENTS are arbitrary symbols and whose counters correspond to J0
 earlier steps (active points occupy slots [0, n_eff), p != 0 exactly there), followed by a reshuffling batch draw."""
 import numpy as np
+from fractions import Fraction
 import jax, jax.numpy as jnp, equinox as eqx
 from .. import terms as tm
 from ..terms import const, eq, lt, le, bnot, band, bor, implies
@@ -169,7 +170,8 @@ def run(cfg, R):
                             G.append((f"{key_}: added coordinate {q} carries a pair with squared residual >= pair ({i},{j}) unless that pair's {key_} coordinate was added too",
                                       bor(row_added, tm.disj([le(pair, b_) for b_ in best_on_line]))))
             # candidates lie in the domain
-            G.append((f"{key_}: all candidates lie in the domain", tm.conj([band(le(const(0, "Real"), c_), le(c_, const(1, "Real"))) for c_ in C.flat])))
+            lo_dom = const(Fraction(1, 4) if key_ == "times" else 0, "Real")          # times live on [TMIN, 1], space on [0, 1]^d
+            G.append((f"{key_}: all candidates lie in the domain", tm.conj([band(le(lo_dom, c_), le(c_, const(1, "Real"))) for c_ in C.flat])))
             # reshuffle keeps the active set in the first n_eff + selected slots
             cd1 = Codes(S1)
             act = [cd1.row_of(S2[k, 0]) for k in range(n_eff + sel)]
